@@ -67,8 +67,11 @@ func main() {
 
 func run(col *core.Collector, prop, tier, variant string, seed uint64, shard, nshards int, replayDir, out string) {
 	switch prop {
-	case "C01", "C07", "C10", "C12":
+	case "C01", "C07", "C12":
 		seq.RunProperty(col, prop, tier, seed, shard, nshards, replayDir)
+	case "C10":
+		seq.RunProperty(col, prop, tier, seed, shard, nshards, replayDir)
+		conc.RunC10Exec(col, tier, variant, seed, shard, nshards, replayDir)
 	case "C03":
 		if variant == "plain" {
 			seq.RunProperty(col, prop, tier, seed, shard, nshards, replayDir)
